@@ -18,6 +18,8 @@ import YaclibModel.Proofs.PipelineLog2
 import YaclibModel.Proofs.PipelineSpec
 import YaclibModel.Proofs.PipelineTerm
 import YaclibModel.Proofs.FreeJob
+import YaclibModel.Proofs.StrandTowerInline
+import YaclibModel.Proofs.StrandTowerManual
 import YaclibModel.Extracted.Kernels
 import YaclibModel.Model.Skeletons
 
@@ -432,6 +434,21 @@ example : let s := frun cfgEx {} [.mk 0 7 .ret, .submitL (.user 1) 0, .change 0 
   decide +kernel
 
 end FreeJobs
+
+/-! ### the Inline and Manual executors as transition systems honour the `IExecutor` contract
+(models and proofs: Proofs/StrandTowerInline.lean, Proofs/StrandTowerManual.lean; `ExecContract`: Proofs/StrandTower.lean;
+used as bases of towers of strands in Props/C07) -/
+
+/-- `MakeInline()` (`alive = true`) and `MakeInline(StopTag)` (`alive = false`): every submitted job is Called
+    (resp. Dropped) exactly once, at once; Submit and the return of a body are never refused -/
+theorem inline_executor_contract (alive : Bool) : Yaclib.Strand.ExecContract (Yaclib.Strand.inlineExec alive) :=
+  Yaclib.Strand.inline_contract alive
+
+/-- `ManualExecutor`: every submitted job is Called exactly once and never Dropped, provided its owner keeps calling
+    `Drain()` while something is queued and does not destroy it before (there is no destructor that Drops the queue:
+    `Yaclib.Strand.manual_destroy_leaks_witness`) -/
+theorem manual_executor_contract : Yaclib.Strand.ExecContract (Yaclib.Strand.manualExec false) :=
+  Yaclib.Strand.manual_contract
 
 end Yaclib.Props.C05
 
